@@ -11,6 +11,7 @@ package reftable
 
 // groups of bookkeeping ghosts (declared further down) for use in modifies clauses
 //@ ghostgroup yielded = noneYet, yRefSeq, yRefName, yRefIdx, yRefVal, yRefValLen, yRefTV, yRefTVLen, yRefTarget, yRefDel, wRefAtYield, refsDone, yLogSeq, yLogName, yLogIdx, yLogNew, yLogNewLen, yLogOld, yLogOldLen, yLogPName, yLogEmail, yLogTime, yLogTZ, yLogMsg, wLogAtYield, logsDone
+//@ ghostgroup pv = pvPrev, pvLast
 //@ ghostgroup taken = wRefSeq, wRefName, wRefIdx, wRefVal, wRefValLen, wRefTV, wRefTVLen, wRefTarget, wLogSeq, wLogName, wLogIdx, wLogNew, wLogNewLen, wLogOld, wLogOldLen, wLogPName, wLogEmail, wLogTime, wLogTZ, wLogMsg
 
 // The value of a k-byte varint (the "offset" encoding of the format: each continuation adds one before shifting), written
@@ -137,11 +138,16 @@ package reftable
 //@   modifies out[0:3]
 //@   ensures out[0]*65536 + out[1]*256 + out[2] == i
 
+// ghost: the lengths returned by the last two putVarInt calls (lets encodeKey name where its two varints end)
+//@ ghost pvPrev int
+//@ ghost pvLast int
 //@ func putVarInt
 //@   props C14 C01
 //@   results n, ok
 //@   nopanic
 //@   modifies buf[0:len(buf)]
+//@   sets pvPrev = pvLast
+//@   sets pvLast = n
 //@   ensures[size] ok ==> 1 <= n && n <= 10 && n <= len(buf)
 //@   ensures !ok ==> n == 0
 //@   ensures[last-byte-ends] ok ==> buf[n-1] < 128
@@ -156,13 +162,13 @@ package reftable
 
 //@ func lemmaVarIntRoundTrip
 //@   props C01 C14
-//@   modifies buf[0:len(buf)]
+//@   modifies buf[0:len(buf)], pv
 
 //@ func lemmaKeyRoundTrip
 //@   props C01 C14
 //@   results k2, v2, fits, accepted
 //@   requires extra < 8
-//@   modifies buf[0:len(buf)]
+//@   modifies buf[0:len(buf)], pv
 //@   ensures[decoder-accepts-what-the-encoder-wrote] fits ==> accepted
 //@   ensures[same-value-type] fits ==> v2 == extra
 //@   ensures[same-length] fits ==> len(k2) == len(key) && vval(buf) <= len(key)
@@ -184,10 +190,17 @@ package reftable
 //@   results n, restart, fits
 //@   requires len(key) < 2305843009213693952
 //@   nopanic
-//@   modifies buf[0:len(buf)]
+//@   modifies buf[0:len(buf)], pv
 //@   ensures[size] fits ==> 2 <= n && n <= len(buf)
 //@   ensures[restart-means-full-key] fits ==> (restart <==> (len(prevKey) == 0 || len(key) == 0 || prevKey[0] != key[0]))
 //@   ensures[full-key-after-empty-predecessor] fits && prevKey == "" ==> restart
+//@   ensures[g1] fits ==> 1 <= pvPrev && 1 <= pvLast && pvPrev + pvLast <= n && n <= len(buf) && n - pvPrev - pvLast <= len(key)
+//@   ensures[g2] fits ==> buf[pvPrev - 1] < 128 && (forall k int :: 0 <= k && k < pvPrev - 1 ==> buf[k] >= 128)
+//@   ensures[g3] fits ==> buf[pvPrev + pvLast - 1] < 128 && (forall k int :: pvPrev <= k && k < pvPrev + pvLast - 1 ==> buf[k] >= 128)
+//@   ensures[g4] fits ==> vlen(buf) == pvPrev
+//@   ensures[g5] fits ==> vlen(buf[pvPrev:]) == pvLast
+//@   ensures[g6] fits ==> vval(buf) <= len(key) && n - pvPrev - pvLast == len(key) - vval(buf)
+//@   ensures[g7] fits && extra < 8 ==> vval(buf[pvPrev:]) == (n - pvPrev - pvLast) * 8 + extra
 //@   ensures[lv1] fits && extra < 8 ==> vlen(buf) >= 1 && vval(buf) <= len(prevKey) && vval(buf) <= len(key)
 //@   ensures[lv2] fits && extra < 8 ==> vlen(buf[vlen(buf):]) >= 1
 //@   ensures[lv3] fits && extra < 8 ==> vval(buf[vlen(buf):]) == (len(key) - vval(buf)) * 8 + extra
@@ -201,7 +214,7 @@ package reftable
 //@   props C14 C01
 //@   results n, ok
 //@   nopanic
-//@   modifies buf[0:len(buf)]
+//@   modifies buf[0:len(buf)], pv
 //@   ensures ok ==> 1 <= n && n <= len(buf)
 
 //@ func (*RefRecord).encode
@@ -209,7 +222,7 @@ package reftable
 //@   results n, fits
 //@   requires r != nil
 //@   nopanic
-//@   modifies buf[0:len(buf)]
+//@   modifies buf[0:len(buf)], pv
 //@   ensures fits ==> 1 <= n && n <= len(buf)
 
 //@ func (*indexRecord).encode
@@ -217,7 +230,7 @@ package reftable
 //@   results n, ok
 //@   requires r != nil
 //@   nopanic
-//@   modifies buf[0:len(buf)]
+//@   modifies buf[0:len(buf)], pv
 //@   ensures ok ==> 1 <= n && n <= len(buf)
 
 //@ func (*objRecord).encode
@@ -225,7 +238,7 @@ package reftable
 //@   results n, fits
 //@   requires r != nil
 //@   nopanic
-//@   modifies buf[0:len(buf)]
+//@   modifies buf[0:len(buf)], pv
 //@   ensures fits ==> 0 <= n && n <= len(buf)
 //@   loop 1 invariant -1 <= rangeindex && rangeindex < len(r.Offsets) - 1 && len(buf) <= old(len(buf)) && ref(buf) == old(ref(buf)) && off(buf) + len(buf) == old(off(buf) + len(buf)) && cap(buf) - len(buf) == old(cap(buf) - len(buf))
 
@@ -234,7 +247,7 @@ package reftable
 //@   props C14 C01 C07
 //@   results n, fits
 //@   requires l != nil
-//@   modifies buf[0:len(buf)], l.Old, l.New
+//@   modifies buf[0:len(buf)], l.Old, l.New, pv
 //@   ensures fits ==> 0 <= n && n <= len(buf)
 //@   ensures[tombstone-has-no-value] old(logIsDel(l)) ==> n == 0 && fits
 //@   ensures[keeps-given-hashes] (old(l.Old) != nil || old(logIsDel(l)) ==> l.Old == old(l.Old)) && (old(l.New) != nil || old(logIsDel(l)) ==> l.New == old(l.New))
@@ -279,7 +292,7 @@ package reftable
 //@   props C14 C01
 //@   requires bwOK(w) && recAny(r)
 //@   nopanic
-//@   modifies w.next, w.restarts, w.restarts[:cap(w.restarts)], w.lastKey, w.entries, w.buf[0:len(w.buf)], asptr(r, *LogRecord).Old if istype(r, *LogRecord), asptr(r, *LogRecord).New if istype(r, *LogRecord)
+//@   modifies w.next, w.restarts, w.restarts[:cap(w.restarts)], w.lastKey, w.entries, w.buf[0:len(w.buf)], asptr(r, *LogRecord).Old if istype(r, *LogRecord), asptr(r, *LogRecord).New if istype(r, *LogRecord), pv
 //@   ensures bwOK(w)
 //@   ensures[refused-leaves-block-unchanged] !result ==> w.next == old(w.next) && w.restarts == old(w.restarts) && w.lastKey == old(w.lastKey) && w.entries == old(w.entries)
 //@   ensures[accepted] result ==> w.next > old(w.next) && w.lastKey == keyOf(r) && w.entries == old(w.entries) + 1
@@ -301,7 +314,7 @@ package reftable
 //@   props C14 C01
 //@   requires bwOK(w)
 //@   nopanic
-//@   modifies w.next, w.buf[0:len(w.buf)]
+//@   modifies w.next, w.buf[0:len(w.buf)], pv
 //@   ensures[length-field] w.buf[w.headerOff+1]*65536 + w.buf[w.headerOff+2]*256 + w.buf[w.headerOff+3] == w.next
 //@   ensures[length] w.next == old(w.next) + 3 * len(w.restarts) + 2 && w.next <= len(w.buf)
 //@   ensures[restart-count] w.buf[w.next-2]*256 + w.buf[w.next-1] == len(w.restarts)
@@ -1352,12 +1365,12 @@ package reftable
 // coarse protocol-level contract (the format clauses are under C14)
 //@ func (*Writer).Close
 //@   trusted
-//@   modifies w.ALLFIELDS, anyof(*blockWriter), taken, anyof([]byte), anyof([]uint32), anyof([]indexRecord)
+//@   modifies w.ALLFIELDS, anyof(*blockWriter), taken, anyof([]byte), anyof([]uint32), anyof([]indexRecord), pv
 
 // Assumption about the caller-supplied transaction function: it writes only to the Writer it is given (and fresh memory).
 //@ callback (*Addition).Add#write
 //@   params w
-//@   modifies w.ALLFIELDS, anyof(*blockWriter), taken, anyof([]byte), anyof([]uint32), anyof([]indexRecord)
+//@   modifies w.ALLFIELDS, anyof(*blockWriter), taken, anyof([]byte), anyof([]uint32), anyof([]indexRecord), pv
 
 // coarse: opens and scans the new table (read-only on the directory)
 //@ func (*Stack).checkAddition
@@ -1370,7 +1383,7 @@ package reftable
 //@ func (*Addition).Add
 //@   props C04 C05 C16 C08 C06
 //@   requires addInv(tr) && tr.lockFileName != ""
-//@   modifies held, ownsTmp, tblExists, fileClosed, fileOf, listNames, listLen, lastReadNames, lastReadLen, appends, commits, buflen, bufdata, lastDelta, lastSought, tr.names, tr.names[:cap(tr.names)], tr.newTables, tr.newTables[:cap(tr.newTables)], tr.nextUpdateIndex, anyof(*blockWriter), retired, rdClosed, taken, seekOn, seekName, seekIdx, yielded, anyof([]byte), anyof([]uint32), anyof([]indexRecord)
+//@   modifies held, ownsTmp, tblExists, fileClosed, fileOf, listNames, listLen, lastReadNames, lastReadLen, appends, commits, buflen, bufdata, lastDelta, lastSought, tr.names, tr.names[:cap(tr.names)], tr.newTables, tr.newTables[:cap(tr.newTables)], tr.nextUpdateIndex, anyof(*blockWriter), retired, rdClosed, taken, seekOn, seekName, seekIdx, yielded, anyof([]byte), anyof([]uint32), anyof([]indexRecord), pv
 //@   ensures[inv-a1] tr != nil && tr.stack == old(tr.stack) && tr.lockFileName == old(tr.lockFileName) && tr.lockFile == old(tr.lockFile) && appends == old(appends) && commits == old(commits)
 //@   ensures[inv-a2] heldWf()
 //@   ensures[inv-a3] sizesOKforStack(tr.stack)
@@ -1451,7 +1464,7 @@ package reftable
 //@ func (*Writer).flushBlock
 //@   props C14 C01
 //@   requires wOK(w)
-//@   modifies w.ALLFIELDS, anyof(*blockWriter), anyof([]byte), anyof([]indexRecord), anyof([]uint32)
+//@   modifies w.ALLFIELDS, anyof(*blockWriter), anyof([]byte), anyof([]indexRecord), anyof([]uint32), pv
 //@   ensures[inv] result == nil ==> wOK(w)
 //@   ensures[flushed] result == nil && old(w.blockWriter) != nil && old(w.blockWriter.entries) > 0 ==> w.blockWriter == nil
 //@   ensures[empty-block-kept] old(w.blockWriter) != nil && old(w.blockWriter.entries) == 0 ==> result == nil && w.blockWriter == old(w.blockWriter) && w.blockWriter.entries == 0 && w.index == old(w.index)
@@ -1466,7 +1479,7 @@ package reftable
 //@ func (*Writer).add
 //@   props C14 C01
 //@   requires wOK(w) && recAny(rec)
-//@   modifies w.ALLFIELDS, anyof(*blockWriter), anyof([]byte), anyof([]uint32), anyof([]indexRecord), asptr(rec, *LogRecord).Old if istype(rec, *LogRecord), asptr(rec, *LogRecord).New if istype(rec, *LogRecord)
+//@   modifies w.ALLFIELDS, anyof(*blockWriter), anyof([]byte), anyof([]uint32), anyof([]indexRecord), asptr(rec, *LogRecord).Old if istype(rec, *LogRecord), asptr(rec, *LogRecord).New if istype(rec, *LogRecord), pv
 //@   ensures[inv] result == nil ==> wOK(w)
 //@   ensures[config-kept] w.cfg == old(w.cfg) && w.block == old(w.block)
 //@   ensures[last-key] w.lastKey == old(keyOf(rec))
@@ -1476,7 +1489,7 @@ package reftable
 //@ func (*Writer).AddRef
 //@   trusted
 //@   requires wOK(w)
-//@   modifies w.ALLFIELDS, anyof(*blockWriter), anyof([]byte), anyof([]uint32), anyof([]indexRecord)
+//@   modifies w.ALLFIELDS, anyof(*blockWriter), anyof([]byte), anyof([]uint32), anyof([]indexRecord), pv
 //@   ensures result == nil ==> wOK(w)
 //@   sets wRefSeq = wRefSeq + 1
 //@   sets wRefName = r.RefName
@@ -1504,7 +1517,7 @@ package reftable
 //@ func (*Writer).finishSection
 //@   props C14 C02
 //@   requires wOK(w) && w.blockWriter != nil
-//@   modifies w.ALLFIELDS, anyof(*blockWriter), anyof([]byte), anyof([]uint32), anyof([]indexRecord)
+//@   modifies w.ALLFIELDS, anyof(*blockWriter), anyof([]byte), anyof([]uint32), anyof([]indexRecord), pv
 //@   ensures[inv] result == nil ==> wOK(w)
 //@   ensures[index-entries-do-not-leak] result == nil ==> len(w.index) == 0
 //@   ensures[nothing-left-unflushed] result == nil ==> w.blockWriter == nil || w.blockWriter.entries == 0
@@ -1516,7 +1529,7 @@ package reftable
 //@ func (*Writer).finishPublicSection
 //@   trusted
 //@   requires wOK(w)
-//@   modifies w.ALLFIELDS, anyof(*blockWriter), anyof([]byte), anyof([]uint32), anyof([]indexRecord)
+//@   modifies w.ALLFIELDS, anyof(*blockWriter), anyof([]byte), anyof([]uint32), anyof([]indexRecord), pv
 //@   ensures result == nil ==> wOK(w) && w.blockWriter == nil
 //@   ensures w.cfg == old(w.cfg) && w.block == old(w.block)
 
@@ -1527,7 +1540,7 @@ package reftable
 //@ func (*Writer).AddLog
 //@   props C07 C13 C01 C14
 //@   requires wOK(w) && l != nil
-//@   modifies w.ALLFIELDS, anyof(*blockWriter), anyof([]byte), anyof([]uint32), anyof([]indexRecord), l.Message, l.Old, l.New
+//@   modifies w.ALLFIELDS, anyof(*blockWriter), anyof([]byte), anyof([]uint32), anyof([]indexRecord), l.Message, l.Old, l.New, pv
 //@   ensures[inv] result == nil ==> wOK(w)
 //@   ensures[tombstone-stays-tombstone] old(logIsDel(l)) && old(l.RefName) != "" ==> logIsDel(l)
 //@   ensures[only-the-message-is-normalised] l.RefName == old(l.RefName) && l.UpdateIndex == old(l.UpdateIndex) && (old(l.New) != nil ==> l.New == old(l.New)) && (old(l.Old) != nil ==> l.Old == old(l.Old)) && l.Name == old(l.Name) && l.Email == old(l.Email) && l.Time == old(l.Time) && l.TZOffset == old(l.TZOffset)
@@ -1574,7 +1587,7 @@ package reftable
 //@   sets mergedExp = expiration
 //@   loop 2 invariant[ref-step] noneYet || refWrittenAsIs() || (refDropped() && first == 0 && yRefDel)
 //@   loop 3 invariant[log-step] (noneYet || (logWrittenAsIs() && !expired(expiration, yLogTime, yLogIdx)) || (logDropped() && expired(expiration, yLogTime, yLogIdx)))
-//@   modifies wr.ALLFIELDS, buflen, bufdata, lastDelta, lastSought, st.Stats.EntriesWritten, anyof(*blockWriter), anyof(*tableIter), anyof(*indexedTableRefIter), anyof(*blockIter), taken, yielded, seekOn, seekName, seekIdx, anyof([]byte), anyof([]uint32), anyof([]indexRecord)
+//@   modifies wr.ALLFIELDS, buflen, bufdata, lastDelta, lastSought, st.Stats.EntriesWritten, anyof(*blockWriter), anyof(*tableIter), anyof(*indexedTableRefIter), anyof(*blockIter), taken, yielded, seekOn, seekName, seekIdx, anyof([]byte), anyof([]uint32), anyof([]indexRecord), pv
 //@   ensures[no-lock-failure] result != ErrLockFailure
 //@   loop 1 invariant[range] first <= i && i <= last + 1 && (subtabs == nil || fresh(subtabs)) && len(subtabs) == i - first && (forall k int :: 0 <= k && k < len(subtabs) ==> iref(subtabs[k]) == st.stack[first + k] && istype(subtabs[k], *Reader))
 //@   loop 2 invariant it != nil && iref(it.impl) != 0 && wOK(wr)
@@ -1587,7 +1600,7 @@ package reftable
 //@ func (*Stack).compactLocked
 //@   props C16 C05 C06 C07 C13
 //@   requires wfStack(st) && 0 <= first && first <= last && last < len(st.stack)
-//@   modifies held, ownsTmp, tblExists, fileClosed, fileOf, listNames, listLen, lastReadNames, lastReadLen, buflen, bufdata, lastDelta, lastSought, st.Stats.EntriesWritten, anyof(*blockWriter), anyof(*tableIter), anyof(*indexedTableRefIter), anyof(*blockIter), taken, yielded, seekOn, seekName, seekIdx, mergedFirst, mergedLast, mergedExp, anyof([]byte), anyof([]uint32), anyof([]indexRecord)
+//@   modifies held, ownsTmp, tblExists, fileClosed, fileOf, listNames, listLen, lastReadNames, lastReadLen, buflen, bufdata, lastDelta, lastSought, st.Stats.EntriesWritten, anyof(*blockWriter), anyof(*tableIter), anyof(*indexedTableRefIter), anyof(*blockIter), taken, yielded, seekOn, seekName, seekIdx, mergedFirst, mergedLast, mergedExp, anyof([]byte), anyof([]uint32), anyof([]indexRecord), pv
 //@   ensures listStable() && wfStack(st) && heldSame()
 //@   ensures[no-lock-failure] result1 != ErrLockFailure
 //@   ensures[merged-what-was-asked] result1 == nil || result1 == ErrEmptyTable ==> mergedFirst == first && mergedLast == last && mergedExp == expiration
@@ -1629,7 +1642,7 @@ package reftable
 //@   requires wfStack(st) && !held[listLock()]
 //@   requires (first < last || expiration != nil) ==> 0 <= first && first <= last && last < len(st.stack)
 //@   requires[expiry-rewrites-the-whole-stack] expiration != nil ==> first == 0 && last == len(st.stack) - 1
-//@   modifies held, ownsTmp, tblExists, fileClosed, fileOf, listNames, listLen, lastReadNames, lastReadLen, lockFails, wNames, wLen, appends, commits, buflen, bufdata, lastDelta, lastSought, st.stack, st.merged, st.Stats.Attempts, st.Stats.EntriesWritten, anyof(*blockWriter), anyof(*tableIter), anyof(*indexedTableRefIter), anyof(*blockIter), retired, rdClosed, taken, yielded, seekOn, seekName, seekIdx, mergedFirst, mergedLast, mergedExp, anyof([]byte), anyof([]uint32), anyof([]indexRecord)
+//@   modifies held, ownsTmp, tblExists, fileClosed, fileOf, listNames, listLen, lastReadNames, lastReadLen, lockFails, wNames, wLen, appends, commits, buflen, bufdata, lastDelta, lastSought, st.stack, st.merged, st.Stats.Attempts, st.Stats.EntriesWritten, anyof(*blockWriter), anyof(*tableIter), anyof(*indexedTableRefIter), anyof(*blockIter), retired, rdClosed, taken, yielded, seekOn, seekName, seekIdx, mergedFirst, mergedLast, mergedExp, anyof([]byte), anyof([]uint32), anyof([]indexRecord), pv
 //@   callsite os.Rename 2 ghost a = mergedFirst; b = mergedLast; k = (emptyTable ? 0 : 1)
 //@   ensures[expiry-as-asked] result0 && (first < last || expiration != nil) ==> mergedExp == expiration
 //@   ensures[locks-released] heldSubset()
@@ -1678,7 +1691,7 @@ package reftable
 //@   requires wfStack(st) && !held[listLock()]
 //@   requires (first < last || expiration != nil) ==> 0 <= first && first <= last && last < len(st.stack)
 //@   requires[expiry-rewrites-the-whole-stack] expiration != nil ==> first == 0 && last == len(st.stack) - 1
-//@   modifies held, ownsTmp, tblExists, fileClosed, fileOf, listNames, listLen, lastReadNames, lastReadLen, lockFails, wNames, wLen, appends, commits, buflen, bufdata, lastDelta, lastSought, st.stack, st.merged, st.Stats.Attempts, st.Stats.Failures, st.Stats.EntriesWritten, anyof(*blockWriter), anyof(*tableIter), anyof(*indexedTableRefIter), anyof(*blockIter), retired, rdClosed, taken, yielded, seekOn, seekName, seekIdx, mergedFirst, mergedLast, mergedExp, anyof([]byte), anyof([]uint32), anyof([]indexRecord)
+//@   modifies held, ownsTmp, tblExists, fileClosed, fileOf, listNames, listLen, lastReadNames, lastReadLen, lockFails, wNames, wLen, appends, commits, buflen, bufdata, lastDelta, lastSought, st.stack, st.merged, st.Stats.Attempts, st.Stats.Failures, st.Stats.EntriesWritten, anyof(*blockWriter), anyof(*tableIter), anyof(*indexedTableRefIter), anyof(*blockIter), retired, rdClosed, taken, yielded, seekOn, seekName, seekIdx, mergedFirst, mergedLast, mergedExp, anyof([]byte), anyof([]uint32), anyof([]indexRecord), pv
 //@   ensures heldSubset() && tmpSubset() && appends == old(appends) && wfStack(st)
 //@   ensures[no-lock-failure] result1 != ErrLockFailure
 //@   ensures[progress] result0 && (first < last || expiration != nil) ==> commits == old(commits) + 1
@@ -1697,7 +1710,7 @@ package reftable
 //@ func (*Stack).AutoCompact
 //@   props C04 C08 C16 C17 C10 C07 C13
 //@   requires wfStack(st) && !held[listLock()]
-//@   modifies held, ownsTmp, tblExists, fileClosed, fileOf, listNames, listLen, lastReadNames, lastReadLen, lockFails, wNames, wLen, appends, commits, buflen, bufdata, lastDelta, lastSought, st.stack, st.merged, st.Stats.Attempts, st.Stats.Failures, st.Stats.EntriesWritten, anyof(*blockWriter), anyof(*tableIter), anyof(*indexedTableRefIter), anyof(*blockIter), retired, rdClosed, taken, yielded, seekOn, seekName, seekIdx, mergedFirst, mergedLast, mergedExp, anyof([]byte), anyof([]uint32), anyof([]indexRecord)
+//@   modifies held, ownsTmp, tblExists, fileClosed, fileOf, listNames, listLen, lastReadNames, lastReadLen, lockFails, wNames, wLen, appends, commits, buflen, bufdata, lastDelta, lastSought, st.stack, st.merged, st.Stats.Attempts, st.Stats.Failures, st.Stats.EntriesWritten, anyof(*blockWriter), anyof(*tableIter), anyof(*indexedTableRefIter), anyof(*blockIter), retired, rdClosed, taken, yielded, seekOn, seekName, seekIdx, mergedFirst, mergedLast, mergedExp, anyof([]byte), anyof([]uint32), anyof([]indexRecord), pv
 //@   ensures heldSubset() && tmpSubset() && appends == old(appends) && wfStack(st)
 //@   ensures[no-lock-failure] result != ErrLockFailure
 //@   ensures commits <= old(commits) + 1
@@ -1705,20 +1718,20 @@ package reftable
 //@ func (*Stack).CompactAll
 //@   props C04 C08 C16 C10 C07 C13
 //@   requires wfStack(st) && !held[listLock()] && len(st.stack) > 0
-//@   modifies held, ownsTmp, tblExists, fileClosed, fileOf, listNames, listLen, lastReadNames, lastReadLen, lockFails, wNames, wLen, appends, commits, buflen, bufdata, lastDelta, lastSought, st.stack, st.merged, st.Stats.Attempts, st.Stats.EntriesWritten, anyof(*blockWriter), anyof(*tableIter), anyof(*indexedTableRefIter), anyof(*blockIter), retired, rdClosed, taken, yielded, seekOn, seekName, seekIdx, mergedFirst, mergedLast, mergedExp, anyof([]byte), anyof([]uint32), anyof([]indexRecord)
+//@   modifies held, ownsTmp, tblExists, fileClosed, fileOf, listNames, listLen, lastReadNames, lastReadLen, lockFails, wNames, wLen, appends, commits, buflen, bufdata, lastDelta, lastSought, st.stack, st.merged, st.Stats.Attempts, st.Stats.EntriesWritten, anyof(*blockWriter), anyof(*tableIter), anyof(*indexedTableRefIter), anyof(*blockIter), retired, rdClosed, taken, yielded, seekOn, seekName, seekIdx, mergedFirst, mergedLast, mergedExp, anyof([]byte), anyof([]uint32), anyof([]indexRecord), pv
 //@   ensures heldSubset() && tmpSubset() && appends == old(appends) && wfStack(st)
 
 // Assumption about the caller-supplied transaction function (see (*Addition).Add#write).
 //@ callback (*Stack).add#write
 //@   params w
-//@   modifies w.ALLFIELDS, anyof(*blockWriter), taken, anyof([]byte), anyof([]uint32), anyof([]indexRecord)
+//@   modifies w.ALLFIELDS, anyof(*blockWriter), taken, anyof([]byte), anyof([]uint32), anyof([]indexRecord), pv
 
 // C04 (safety core): one transaction; an error means nothing was committed except on the return site of Commit's
 // reload (see known findings); nothing is left locked or temporary (C08, C16).
 //@ func (*Stack).add
 //@   props C04 C08 C09 C16 C10
 //@   requires wfStack(st) && !held[listLock()]
-//@   modifies held, ownsTmp, tblExists, fileClosed, fileOf, listNames, listLen, lastReadNames, lastReadLen, lockFails, wNames, wLen, appends, commits, buflen, bufdata, lastDelta, lastSought, st.stack, st.merged, anyof(*blockWriter), anyof(*Addition), retired, rdClosed, taken, seekOn, seekName, seekIdx, yielded, anyof([]byte), anyof([]uint32), anyof([]indexRecord)
+//@   modifies held, ownsTmp, tblExists, fileClosed, fileOf, listNames, listLen, lastReadNames, lastReadLen, lockFails, wNames, wLen, appends, commits, buflen, bufdata, lastDelta, lastSought, st.stack, st.merged, anyof(*blockWriter), anyof(*Addition), retired, rdClosed, taken, seekOn, seekName, seekIdx, yielded, anyof([]byte), anyof([]uint32), anyof([]indexRecord), pv
 //@   ensures[locks-released] heldSubset()
 //@   ensures[no-temp] tmpSubset()
 //@   ensures[at-most-one] appends <= old(appends) + 1 && appends >= old(appends)
@@ -1728,7 +1741,7 @@ package reftable
 //@ func (*Stack).Add
 //@   props C04 C08 C09 C16 C10
 //@   requires wfStack(st) && !held[listLock()]
-//@   modifies held, ownsTmp, tblExists, fileClosed, fileOf, listNames, listLen, lastReadNames, lastReadLen, lockFails, wNames, wLen, appends, commits, buflen, bufdata, lastDelta, lastSought, st.stack, st.merged, st.Stats.Attempts, st.Stats.Failures, st.Stats.EntriesWritten, anyof(*blockWriter), anyof(*tableIter), anyof(*indexedTableRefIter), anyof(*blockIter), anyof(*Addition), retired, rdClosed, taken, yielded, seekOn, seekName, seekIdx, mergedFirst, mergedLast, mergedExp, anyof([]byte), anyof([]uint32), anyof([]indexRecord)
+//@   modifies held, ownsTmp, tblExists, fileClosed, fileOf, listNames, listLen, lastReadNames, lastReadLen, lockFails, wNames, wLen, appends, commits, buflen, bufdata, lastDelta, lastSought, st.stack, st.merged, st.Stats.Attempts, st.Stats.Failures, st.Stats.EntriesWritten, anyof(*blockWriter), anyof(*tableIter), anyof(*indexedTableRefIter), anyof(*blockIter), anyof(*Addition), retired, rdClosed, taken, yielded, seekOn, seekName, seekIdx, mergedFirst, mergedLast, mergedExp, anyof([]byte), anyof([]uint32), anyof([]indexRecord), pv
 //@   ensures[locks-released] heldSubset()
 //@   ensures[no-temp] tmpSubset()
 //@   ensures[at-most-one] appends <= old(appends) + 1 && appends >= old(appends)
